@@ -109,7 +109,30 @@ type shardRun struct {
 	died      string
 	stderr    string
 	stalled   bool
+	spinning  bool // stalled while burning CPU (decided on CPU time, not on the wall clock)
 }
+
+// procCPU returns the CPU time (user+system) a process has consumed, from /proc (0 if unavailable).
+func procCPU(pid int) time.Duration {
+	b, err := os.ReadFile(fmt.Sprintf("/proc/%d/stat", pid))
+	if err != nil {
+		return 0
+	}
+	s := string(b)
+	if i := strings.LastIndex(s, ")"); i >= 0 {
+		f := strings.Fields(s[i+1:])
+		if len(f) > 13 {
+			ut, _ := strconv.ParseInt(f[11], 10, 64)
+			st, _ := strconv.ParseInt(f[12], 10, 64)
+			return time.Duration(ut+st) * 10 * time.Millisecond
+		}
+	}
+	return 0
+}
+
+// stallWindow: a worker that reports nothing for this long is stopped. No legitimate case takes more than a few
+// seconds (stream cases wait at most 60 s for quiescence).
+const stallWindow = 150 * time.Second
 
 func runWorkerProc(p *Prop, o *Options, tier string, seed uint64, start, stride, n int, tag string) shardRun {
 	hashPath := filepath.Join(o.RunDir, "hash."+tag)
@@ -134,6 +157,7 @@ func runWorkerProc(p *Prop, o *Options, tier string, seed uint64, start, stride,
 	}
 	var mu sync.Mutex
 	lastActivity := time.Now()
+	cpuAtActivity := procCPU(cmd.Process.Pid)
 	doneCh := make(chan struct{})
 	go func() { // generous wall-clock watchdog: its firing is inconclusive, never a violation
 		t := time.NewTicker(5 * time.Second)
@@ -146,9 +170,13 @@ func runWorkerProc(p *Prop, o *Options, tier string, seed uint64, start, stride,
 				mu.Lock()
 				idle := time.Since(lastActivity)
 				mu.Unlock()
-				if idle > 600*time.Second {
+				if idle > stallWindow {
 					mu.Lock()
 					sr.stalled = true
+					// a silent worker that used more than half of the window's CPU time is spinning in the case it began
+					if used := procCPU(cmd.Process.Pid) - cpuAtActivity; used > stallWindow/2 {
+						sr.spinning = true
+					}
 					mu.Unlock()
 					cmd.Process.Signal(syscall.SIGQUIT)
 					time.Sleep(2 * time.Second)
@@ -164,6 +192,7 @@ func runWorkerProc(p *Prop, o *Options, tier string, seed uint64, start, stride,
 		if len(line) > 2 {
 			mu.Lock()
 			lastActivity = time.Now()
+			cpuAtActivity = procCPU(cmd.Process.Pid)
 			mu.Unlock()
 			switch line[0] {
 			case 'B':
@@ -262,7 +291,15 @@ func RunCheck(p *Prop, tier string, seed uint64, o *Options) int {
 			defer wg.Done()
 			start := k
 			recycles := 0
+			stalls := 0
 			for attempt := 0; start >= 0 && start < n; attempt++ {
+				if stalls >= 2 {
+					mu.Lock()
+					agg.Inconclusive = append(agg.Inconclusive, fmt.Sprintf("shard %d: stopped after %d stalled workers, cases from %d not run", k, stalls, start))
+					agg.Counters["inconclusive"]++
+					mu.Unlock()
+					return
+				}
 				if attempt >= 12 {
 					mu.Lock()
 					agg.Inconclusive = append(agg.Inconclusive, fmt.Sprintf("shard %d: too many restarts, cases from %d not run", k, start))
@@ -283,9 +320,20 @@ func RunCheck(p *Prop, tier string, seed uint64, o *Options) int {
 					continue
 				}
 				// the worker died: attribute to the case it had begun
-				if sr.stalled {
+				if sr.stalled && sr.spinning && sr.lastBegun >= 0 {
+					// the worker burnt CPU for the whole window without finishing the case: a non-terminating library call
+					v := Violation{Kind: "case", Class: "hang", Locus: "cpu", Index: sr.lastBegun,
+						Detail: fmt.Sprintf("the worker consumed more than %v of CPU on this case without finishing it (a library call does not terminate)\n%s", stallWindow/2, trimStack(firstSpinning(sr.stderr)))}
+					if b, e := json.Marshal(p.Gen(tier, seed, sr.lastBegun)); e == nil {
+						v.Case = b
+					}
+					agg.Viol = append(agg.Viol, v)
+					agg.ViolCount[v.Key()]++
+					stalls++
+				} else if sr.stalled {
 					agg.Inconclusive = append(agg.Inconclusive, fmt.Sprintf("shard %d: wall-clock watchdog fired at case %d", k, sr.lastBegun))
 					agg.Counters["inconclusive"]++
+					stalls++
 				} else if sr.lastBegun >= 0 {
 					v := Violation{Kind: "case", Class: "crash", Locus: clean(crashLocus(sr.stderr)), Index: sr.lastBegun,
 						Detail: sr.died + "\n" + trimStack(firstFatal(sr.stderr))}
@@ -413,6 +461,23 @@ func firstLines(s string, n int) string {
 		lines = lines[:n]
 	}
 	return strings.Join(lines, "\n          ")
+}
+
+// firstSpinning extracts the stack of a running goroutine from a SIGQUIT dump.
+func firstSpinning(stderr string) string {
+	if i := strings.Index(stderr, "[running]"); i >= 0 {
+		j := strings.LastIndex(stderr[:i], "goroutine ")
+		if j >= 0 {
+			return stderr[j:]
+		}
+	}
+	if i := strings.Index(stderr, "[runnable]"); i >= 0 {
+		j := strings.LastIndex(stderr[:i], "goroutine ")
+		if j >= 0 {
+			return stderr[j:]
+		}
+	}
+	return firstFatal(stderr)
 }
 
 func firstFatal(stderr string) string {
